@@ -131,7 +131,20 @@ func c11Unit(c *vf.Ctx) {
 		}
 		var dims []c11Dim
 		total := 1
-		for i := 0; i < nd; i++ {
+		if ci < 4 {
+			// crafted: nested map dimensions where a key of one level embeds
+			// "/fork_" + a key of the other, so that joining the per-level
+			// names can give the same string for two different forks
+			x := []string{"a", "b c", "é", "k.1"}[ci]
+			k := []string{"k", "a", "zz", "0"}[ci]
+			outer := []string{x, x + "/fork_" + x}
+			inner := []string{k, x + "/fork_" + k}
+			sort.Strings(outer)
+			sort.Strings(inner)
+			dims = []c11Dim{{isMap: true, keys: outer, dynamic: ci%2 == 1}, {isMap: true, keys: inner}}
+			total = 4
+		}
+		for i := 0; i < nd && ci >= 4; i++ {
 			d := c11Dim{dynamic: rng.Intn(3) == 0}
 			if rng.Intn(2) == 0 {
 				d.isMap = true
@@ -181,6 +194,7 @@ func c11Unit(c *vf.Ctx) {
 		feat := keyFeatures(allKeys)
 		c.Distinct(fmt.Sprint(dims))
 		// enumerate forks
+		nd = len(dims)
 		idx := make([]int, nd)
 		type forkRec struct {
 			desc    string
@@ -371,7 +385,8 @@ func init() {
 		}
 		// any dataflow / exactly-once finding in these otherwise safe-shape runs is a misattribution
 		for _, f := range res.report.Findings {
-			if (f.Prop == "C01" || f.Prop == "C03") && !strings.Contains(f.Sig, "indep") && !strings.Contains(f.Sig, "unresolved-merge") {
+			if (f.Prop == "C01" || f.Prop == "C03") && !strings.Contains(f.Sig, "indep") && !strings.Contains(f.Sig, "unresolved-merge") &&
+				!strings.Contains(f.Sig, "fed-by-other-instance-of-own-map-call") { // C01's known finding, not a naming matter
 				c.Violate("C11:e2e:"+f.Prop+"-finding:"+c11Class(res.prog)+":"+f.Sig, "with adversarial map keys "+fmt.Sprintf("%q", res.fc.Cfg.KeyPool)+": "+f.What,
 					map[string]interface{}{"program_seed": res.fc.Seed, "mro": res.prog.Print()})
 			}
